@@ -919,6 +919,13 @@ int EGLPNUM_TYPENAME_ILLlib_newrow (
 	rval = EGLPNUM_TYPENAME_ILLlib_addrow (lp, B, 0, 0, 0, rhs, sense, range, name);
 	CHECKRVALG (rval, CLEANUP);
 
+	/* the pricing norms stored with the basis have one entry per old row */
+	if (B)
+	{
+		EGLPNUM_TYPENAME_EGlpNumFreeArray (B->rownorms);
+		EGLPNUM_TYPENAME_EGlpNumFreeArray (B->colnorms);
+	}
+
 CLEANUP:
 
 	EG_RETURN (rval);
